@@ -149,7 +149,7 @@ func c04Options(r *runner.Rng) (opts []expr.Option, desc string, runEnvs []inter
 		parts = append(parts, "AsFloat64")
 	}
 	if r.Chance(1, 4) {
-		ops := [][2]string{{"+", "FnII"}, {"+", "Missing"}, {"+", "FnI"}, {"-", "A"}, {"==", "FnAny"}, {"==", "EqAny"}, {"!=", "EqAny"}, {"+", "EqAny"}, {"in", "EqAny"}, {"+", "Fast"}, {"*", "f"}, {"<", "Cat"}, {"+", ""}, {"in", "FnII"}, {"bogus", "FnII"}, {"+", "Inc"}}
+		ops := [][2]string{{"+", "FnII"}, {"+", "Missing"}, {"+", "FnI"}, {"-", "A"}, {"==", "FnAny"}, {"==", "EqAny"}, {"==", "StrEq"}, {"!=", "StrEq"}, {"+", "StrEq"}, {"!=", "EqAny"}, {"+", "EqAny"}, {"in", "EqAny"}, {"+", "Fast"}, {"*", "f"}, {"<", "Cat"}, {"+", ""}, {"in", "FnII"}, {"bogus", "FnII"}, {"+", "Inc"}}
 		o := ops[r.Intn(len(ops))]
 		opts = append(opts, expr.Operator(o[0], o[1]))
 		parts = append(parts, fmt.Sprintf("Operator(%q,%q)", o[0], o[1]))
